@@ -1,5 +1,598 @@
+/-
+  Lemmas about the jsonblob model (Model/JsonBlob.lean) used by Props/C16.lean.
+-/
 import ClairModel.Model.JsonBlob
+import ClairModel.Lib.Sm
 
 namespace ClairModel.JsonBlob
+
+/-! ### What `Store.Store` writes -/
+
+/-- The file `Store.Store` writes for the entries `es` when no line is too long:
+    each entry's records, in order, as consecutive lines sharing its ref. -/
+def render (es : List Entry) : List Line := es.flatMap fun e => e.recs.map (mkLine e)
+
+def Entry.AllFit (e : Entry) : Prop := ∀ r ∈ e.recs, r.fits = true
+
+theorem emitRecs_fits (e : Entry) (rs : List Rec) (h : ∀ r ∈ rs, r.fits = true) :
+    emitRecs e rs = (rs.map (mkLine e), true) := by
+  induction rs with
+  | nil => rfl
+  | cons r rs ih =>
+    have hr : r.fits = true := h r (by simp)
+    have ih' := ih (fun x hx => h x (by simp [hx]))
+    simp [emitRecs, hr, ih']
+
+theorem storeOut_fits (es : List Entry) (h : ∀ e ∈ es, e.AllFit) :
+    storeOut es = (render es, [], true) := by
+  induction es with
+  | nil => rfl
+  | cons e es ih =>
+    have he := emitRecs_fits e e.recs (h e (by simp))
+    have ih' := ih (fun x hx => h x (by simp [hx]))
+    simp [storeOut, he, ih', render]
+
+/-- `Store.Store` returns nil exactly when every line fits the scanner buffer. -/
+theorem storeOut_ok_iff (es : List Entry) : (storeOut es).2.2 = true ↔ ∀ e ∈ es, e.AllFit := by
+  induction es with
+  | nil => simp [storeOut]
+  | cons e es ih =>
+    have emit_ok : ∀ rs : List Rec, (emitRecs e rs).2 = true ↔ ∀ r ∈ rs, r.fits = true := by
+      intro rs
+      induction rs with
+      | nil => simp [emitRecs]
+      | cons r rs ihr =>
+        by_cases hr : r.fits = true
+        · simp [emitRecs, hr, ihr]
+        · simp [emitRecs, hr]
+    by_cases hok : (emitRecs e e.recs).2 = true
+    · have : e.AllFit := (emit_ok e.recs).1 hok
+      simp only [storeOut, hok, if_true]
+      simp [ih, this]
+    · have : ¬ e.AllFit := fun h => hok ((emit_ok e.recs).2 h)
+      simp only [storeOut, hok]
+      simp [this]
+
+theorem render_cons (e : Entry) (es : List Entry) :
+    render (e :: es) = e.recs.map (mkLine e) ++ render es := by
+  simp [render]
+
+/-- Zero-length entries contribute no line. -/
+theorem render_filter (es : List Entry) :
+    render (es.filter fun e => !e.recs.isEmpty) = render es := by
+  induction es with
+  | nil => rfl
+  | cons e es ih =>
+    by_cases h : e.recs = []
+    · simp [List.filter, h, render_cons, ih]
+    · have : (!e.recs.isEmpty) = true := by simp [h]
+      simp [List.filter, this, render_cons, ih]
+
+theorem length_le_render (es : List Entry) (h : ∀ e ∈ es, e.recs ≠ []) :
+    es.length ≤ (render es).length := by
+  induction es with
+  | nil => simp
+  | cons e es ih =>
+    have he : e.recs ≠ [] := h e (by simp)
+    have := ih (fun x hx => h x (by simp [hx]))
+    have hl : 0 < e.recs.length := List.length_pos_iff.2 he
+    simp [render_cons]
+    omega
+
+/-! ### The loader on a block of lines sharing a ref -/
+
+def LEntry.addRecs (n : LEntry) : Kind → List Rec → LEntry
+  | .vuln, rs => { n with vuln := n.vuln ++ rs }
+  | .enrich, rs => { n with enrich := n.enrich ++ rs }
+
+/-- Lines continuing the current ref are appended to `l.next`. -/
+theorem loop_absorb (e0 : Option LEntry) (en : Entry) (rs : List Rec) :
+    ∀ (p : LEntry) (rest : List Line),
+      loop e0 (some p) en.ref (rs.map (mkLine en) ++ rest) =
+      loop e0 (some (p.addRecs en.kind rs)) en.ref rest := by
+  induction rs with
+  | nil => intro p rest; cases hk : en.kind <;> simp [LEntry.addRecs]
+  | cons r rs ih =>
+    intro p rest
+    cases hk : en.kind
+    · simp only [List.map_cons, List.cons_append]
+      rw [loop]
+      simp only [mkLine, hk, Kind.body]
+      simp only [bne_self_eq_false, Bool.false_eq_true, if_false, Option.map_some, reduceCtorEq]
+      have := ih (p.addVuln r) rest
+      simp only [hk] at this
+      rw [this]
+      simp [LEntry.addRecs, LEntry.addVuln]
+    · simp only [List.map_cons, List.cons_append]
+      rw [loop]
+      simp only [mkLine, hk, Kind.body]
+      simp only [bne_self_eq_false, Bool.false_eq_true, if_false, Option.map_some, reduceCtorEq]
+      have := ih (p.addEnrich r) rest
+      simp only [hk] at this
+      rw [this]
+      simp [LEntry.addRecs, LEntry.addEnrich]
+
+/-- The first line of a different ref promotes `l.next` to `l.e`; `Next` reports it. -/
+theorem loop_boundary (e0 : Option LEntry) (p : LEntry) (cur : Nat) (en : Entry) (r : Rec)
+    (rest : List Line) (h : en.ref ≠ cur) :
+    loop e0 (some p) cur (mkLine en r :: rest) =
+      ({ err := .none, e := some p, next := some ((LEntry.new (mkLine en r)).addRecs en.kind [r]),
+         cur := en.ref, rest := rest }, .yes) := by
+  have hb : (en.ref != cur) = true := by simp [h]
+  cases hk : en.kind <;>
+    simp [loop, mkLine, hk, Kind.body, hb, LEntry.addRecs, LEntry.addVuln, LEntry.addEnrich, LEntry.new]
+
+/-- The very first line of a file (`l.cur` is uuid.Nil, nothing to promote). -/
+theorem loop_first (en : Entry) (r : Rec) (rest : List Line) (h : en.ref ≠ 0) :
+    loop none none 0 (mkLine en r :: rest) =
+      loop none (some ((LEntry.new (mkLine en r)).addRecs en.kind [r])) en.ref rest := by
+  have hb : (en.ref != 0) = true := by simp [h]
+  cases hk : en.kind <;>
+    simp [loop, mkLine, hk, Kind.body, hb, LEntry.addRecs, LEntry.addVuln, LEntry.addEnrich, LEntry.new]
+
+theorem loop_end (e0 : Option LEntry) (p : LEntry) (cur : Nat) :
+    loop e0 (some p) cur [] =
+      ({ err := .eof, e := some p, next := some p, cur := cur, rest := [] }, .yes) := by
+  simp [loop, boolOut]
+
+theorem loaded_eq (en : Entry) (r : Rec) (rs : List Rec) (h : en.recs = r :: rs) :
+    ((LEntry.new (mkLine en r)).addRecs en.kind [r]).addRecs en.kind rs = en.loaded := by
+  cases hk : en.kind <;> simp [LEntry.new, LEntry.addRecs, Entry.loaded, mkLine, hk, h]
+
+/-! ### Draining the iterator -/
+
+/-- The loader between two `Next` calls, inside the block of ref `cur`. -/
+def Loader.mid (e0 : Option LEntry) (p : LEntry) (cur : Nat) (rest : List Line) : Loader :=
+  { err := .none, e := e0, next := some p, cur := cur, rest := rest }
+
+theorem drain_congr (n : Nat) (l₁ l₂ : Loader) (h : l₁.step = l₂.step) : drain n l₁ = drain n l₂ := by
+  cases n with
+  | zero => rfl
+  | succ n => simp only [drain, h]
+
+theorem step_mid (e0 : Option LEntry) (p : LEntry) (cur : Nat) (rest : List Line) :
+    (Loader.mid e0 p cur rest).step = loop e0 (some p) cur rest := by
+  simp [Loader.step, Loader.mid]
+
+theorem drain_absorb (n : Nat) (e0 : Option LEntry) (en : Entry) (rs : List Rec) (p : LEntry)
+    (rest : List Line) :
+    drain n (Loader.mid e0 p en.ref (rs.map (mkLine en) ++ rest)) =
+    drain n (Loader.mid e0 (p.addRecs en.kind rs) en.ref rest) := by
+  apply drain_congr
+  rw [step_mid, step_mid, loop_absorb]
+
+def DistinctRefs (es : List Entry) : Prop := es.Pairwise fun a b => a.ref ≠ b.ref
+
+/-- From inside a block, the loader yields the block's entry and then exactly
+    the remaining entries, and ends cleanly. -/
+theorem drain_mid (es : List Entry) :
+    ∀ (fuel : Nat) (e0 : Option LEntry) (p : LEntry) (cur : Nat),
+      (∀ e ∈ es, e.recs ≠ []) → DistinctRefs es → (∀ e ∈ es, e.ref ≠ cur) →
+      es.length + 2 ≤ fuel →
+      drain fuel (Loader.mid e0 p cur (render es)) =
+        (some p :: es.map (fun e => some e.loaded), .ok) := by
+  induction es with
+  | nil =>
+    intro fuel e0 p cur _ _ _ hf
+    obtain ⟨f, rfl⟩ : ∃ f, fuel = f + 2 := ⟨fuel - 2, by simp at hf; omega⟩
+    have h1 : (Loader.mid e0 p cur (render [])).step =
+        ({ err := .eof, e := some p, next := some p, cur := cur, rest := [] }, .yes) := by
+      rw [step_mid]; exact loop_end e0 p cur
+    rw [drain, h1]
+    simp only
+    rw [drain]
+    simp [Loader.step, LErr.fin]
+  | cons en es ih =>
+    intro fuel e0 p cur hne hd hc hf
+    obtain ⟨f, rfl⟩ : ∃ f, fuel = f + 1 := ⟨fuel - 1, by simp at hf; omega⟩
+    obtain ⟨r, rs, hrs⟩ : ∃ r rs, en.recs = r :: rs := by
+      have := hne en (by simp)
+      cases h : en.recs with
+      | nil => exact absurd h this
+      | cons r rs => exact ⟨r, rs, rfl⟩
+    have hd' : DistinctRefs es := (List.pairwise_cons.1 hd).2
+    have hfirst : ∀ e ∈ es, e.ref ≠ en.ref := fun e he => fun h => (List.pairwise_cons.1 hd).1 e he h.symm
+    have hstep : (Loader.mid e0 p cur (render (en :: es))).step =
+        (Loader.mid (some p) ((LEntry.new (mkLine en r)).addRecs en.kind [r]) en.ref
+          (rs.map (mkLine en) ++ render es), .yes) := by
+      rw [step_mid, render_cons, hrs, List.map_cons, List.cons_append, loop_boundary _ _ _ _ _ _ (hc en (by simp))]
+      rfl
+    rw [drain, hstep]
+    simp only
+    rw [drain_absorb, loaded_eq en r rs hrs,
+      ih f (some p) en.loaded en.ref (fun e he => hne e (by simp [he])) hd' hfirst (by simp at hf ⊢; omega)]
+    simp [Loader.mid]
+
+/-- Loading what `Store.Store` wrote for non-empty entries with distinct,
+    non-Nil refs yields exactly those entries, in the order written. -/
+theorem loadAll_render (es : List Entry) (hne : ∀ e ∈ es, e.recs ≠ []) (hd : DistinctRefs es)
+    (h0 : ∀ e ∈ es, e.ref ≠ 0) :
+    loadAll (render es) = (es.map (fun e => some e.loaded), .ok) := by
+  cases es with
+  | nil => rfl
+  | cons en es =>
+    obtain ⟨r, rs, hrs⟩ : ∃ r rs, en.recs = r :: rs := by
+      have := hne en (by simp)
+      cases h : en.recs with
+      | nil => exact absurd h this
+      | cons r rs => exact ⟨r, rs, rfl⟩
+    have hd' : DistinctRefs es := (List.pairwise_cons.1 hd).2
+    have hfirst : ∀ e ∈ es, e.ref ≠ en.ref := fun e he => fun h => (List.pairwise_cons.1 hd).1 e he h.symm
+    have hstep : (Loader.init (render (en :: es))).step =
+        (Loader.mid none en.loaded en.ref (render es)).step := by
+      rw [step_mid]
+      simp only [Loader.step, Loader.init]
+      rw [render_cons, hrs, List.map_cons, List.cons_append]
+      simp only [ne_eq, not_true_eq_false, if_false]
+      rw [loop_first en r _ (h0 en (by simp)), loop_absorb, loaded_eq en r rs hrs]
+    unfold loadAll
+    rw [drain_congr _ _ _ hstep]
+    have hlen := length_le_render (en :: es) hne
+    exact drain_mid es _ none en.loaded en.ref (fun e he => hne e (by simp [he])) hd' hfirst
+      (by simp at hlen ⊢; omega)
+
+/-! ### `Next` true implies a non-nil `Entry` (the repaired defect), for every file -/
+
+theorem loop_yes_entry (lines : List Line) :
+    ∀ (e next : Option LEntry) (cur : Nat),
+      (loop e next cur lines).2 = .yes → (loop e next cur lines).1.e.isSome = true := by
+  induction lines with
+  | nil => intro e next cur; cases next <;> simp [loop, boolOut]
+  | cons ln rest ih =>
+    intro e next cur
+    rw [loop]
+    by_cases hg : ln.body = .garbage
+    · cases next <;> simp [hg, boolOut]
+    · simp only [hg, if_false]
+      split
+      · split <;> simp
+      · split
+        · split
+          · rename_i h; intro _; exact h
+          · exact ih _ _ _
+        · exact ih _ _ _
+
+theorem step_yes_entry (l : Loader) (h : l.step.2 = .yes) : l.step.1.e.isSome = true := by
+  unfold Loader.step at h ⊢
+  by_cases he : l.err ≠ .none
+  · simp [he] at h
+  · simp only [he, if_false] at h ⊢
+    exact loop_yes_entry _ _ _ _ h
+
+theorem drain_all_some (n : Nat) : ∀ (l : Loader), ∀ x ∈ (drain n l).1, x.isSome = true := by
+  induction n with
+  | zero => intro l x hx; simp [drain] at hx
+  | succ n ih =>
+    intro l x hx
+    rw [drain] at hx
+    have hs := step_yes_entry l
+    revert hx hs
+    generalize l.step = st
+    obtain ⟨l', o⟩ := st
+    cases o with
+    | yes =>
+      intro hx hs
+      simp only [List.mem_cons] at hx
+      rcases hx with rfl | hx
+      · exact hs rfl
+      · exact ih l' x hx
+    | no => intro hx _; simp at hx
+    | panic => intro hx _; simp at hx
+
+/-! ### The map order given to `Store.store` -/
+
+theorem filter_ne_self (l : List Entry) (r : Nat) (h : ∀ x ∈ l, x.ref ≠ r) :
+    l.filter (fun x => !(x.ref == r)) = l := by
+  apply List.filter_eq_self.2
+  intro x hx
+  simp [h x hx]
+
+theorem perm_cons_filter (l : List Entry) (e : Entry) (hd : DistinctRefs l) (he : e ∈ l) :
+    (e :: l.filter (fun x => !(x.ref == e.ref))).Perm l := by
+  induction l with
+  | nil => simp at he
+  | cons a l ih =>
+    have hal : ∀ x ∈ l, a.ref ≠ x.ref := (List.pairwise_cons.1 hd).1
+    have hd' : DistinctRefs l := (List.pairwise_cons.1 hd).2
+    by_cases hae : a.ref = e.ref
+    · have : e = a := by
+        rcases List.mem_cons.1 he with h | h
+        · exact h
+        · exact absurd hae (hal e h)
+      subst this
+      have : (e :: l).filter (fun x => !(x.ref == e.ref)) = l := by
+        simp only [List.filter, beq_self_eq_true, Bool.not_true]
+        exact filter_ne_self l e.ref (fun x hx => (hal x hx).symm)
+      rw [this]
+    · have hel : e ∈ l := by
+        rcases List.mem_cons.1 he with h | h
+        · exact absurd (h ▸ rfl) hae
+        · exact h
+      have hb : (!(a.ref == e.ref)) = true := by simp [hae]
+      simp only [List.filter, hb]
+      exact (List.Perm.swap a e _).trans ((ih hd' hel).cons a)
+
+theorem arrange_mem (order : List Nat) : ∀ (entries es : List Entry),
+    arrange entries order = some es → ∀ x ∈ es, x ∈ entries := by
+  induction order with
+  | nil =>
+    intro entries es h x hx
+    simp only [arrange] at h
+    split at h
+    · cases h; simp at hx
+    · cases h
+  | cons r rs ih =>
+    intro entries es h x hx
+    simp only [arrange] at h
+    split at h
+    · cases h
+    · rename_i e hf
+      split at h
+      · cases h
+      · rename_i es' ha
+        cases h
+        rcases List.mem_cons.1 hx with rfl | hx
+        · exact List.mem_of_find?_eq_some hf
+        · exact (List.mem_filter.1 (ih _ _ ha x hx)).1
+
+theorem arrange_perm (order : List Nat) : ∀ (entries es : List Entry), DistinctRefs entries →
+    arrange entries order = some es → es.Perm entries := by
+  induction order with
+  | nil =>
+    intro entries es _ h
+    simp only [arrange] at h
+    split at h
+    · rename_i he
+      cases h
+      rw [List.isEmpty_iff.1 he]
+    · cases h
+  | cons r rs ih =>
+    intro entries es hd h
+    simp only [arrange] at h
+    split at h
+    · cases h
+    · rename_i e hf
+      split at h
+      · cases h
+      · rename_i es' ha
+        cases h
+        have hmem : e ∈ entries := List.mem_of_find?_eq_some hf
+        have href : e.ref = r := by have := List.find?_some hf; simpa using this
+        have hd' : DistinctRefs (entries.filter fun x => !(x.ref == r)) := List.Pairwise.filter _ hd
+        have h1 := ih _ _ hd' ha
+        subst href
+        exact (h1.cons e).trans (perm_cons_filter entries e hd hmem)
+
+/-- The insertion order is one possible map order (the hypothesis of the
+    theorems about `Store.store` is satisfiable for every store). -/
+theorem arrange_self (entries : List Entry) (hd : DistinctRefs entries) :
+    arrange entries (entries.map (·.ref)) = some entries := by
+  induction entries with
+  | nil => rfl
+  | cons a l ih =>
+    have hal : ∀ x ∈ l, a.ref ≠ x.ref := (List.pairwise_cons.1 hd).1
+    have hd' : DistinctRefs l := (List.pairwise_cons.1 hd).2
+    have hf : (a :: l).filter (fun x => !(x.ref == a.ref)) = l := by
+      simp only [List.filter, beq_self_eq_true, Bool.not_true]
+      exact filter_ne_self l a.ref (fun x hx => (hal x hx).symm)
+    simp only [List.map_cons, arrange, List.find?_cons, beq_self_eq_true, hf, ih hd']
+
+theorem distinct_perm {l₁ l₂ : List Entry} (h : l₁.Perm l₂) (hd : DistinctRefs l₂) : DistinctRefs l₁ :=
+  (h.pairwise_iff (fun hab => fun hba => hab hba.symm)).2 hd
+
+/-- What is left in the map after `Store.Store` is a suffix of the order visited. -/
+theorem storeOut_left_suffix (es : List Entry) : ∃ pre, es = pre ++ (storeOut es).2.1 := by
+  induction es with
+  | nil => exact ⟨[], rfl⟩
+  | cons e es ih =>
+    obtain ⟨pre, hpre⟩ := ih
+    by_cases hok : (emitRecs e e.recs).2 = true
+    · refine ⟨e :: pre, ?_⟩
+      simp only [storeOut, hok, if_true, List.cons_append]
+      rw [← hpre]
+    · exact ⟨[e], by simp [storeOut, hok]⟩
+
+/-! ### Histories -/
+
+/-- What a recording call was given. -/
+structure Update where
+  kind : Kind
+  updater : String
+  fp : String
+  recs : List Rec
+deriving DecidableEq, Repr
+
+def Entry.update (e : Entry) : Update := ⟨e.kind, e.updater, e.fp, e.recs⟩
+
+/-- The `Entry` the loader should produce for a recorded update. -/
+def Update.loaded (u : Update) : LEntry :=
+  match u.kind with
+  | .vuln => { updater := u.updater, fp := u.fp, vuln := u.recs }
+  | .enrich => { updater := u.updater, fp := u.fp, enrich := u.recs }
+
+theorem Entry.update_loaded (e : Entry) : e.update.loaded = e.loaded := by
+  cases hk : e.kind <;> simp [Entry.update, Update.loaded, Entry.loaded, hk]
+
+def Op.update? : Op → Option Update
+  | .record k u f recs _ => some ⟨k, u, f, recs⟩
+  | .delta u f recs _ _ => some ⟨.vuln, u, f, recs⟩
+  | .store _ => none
+
+/-- A history of recording calls only. -/
+def RecOnly (ops : List Op) : Prop := ∀ op ∈ ops, op.update?.isSome = true
+
+/-- The updates of the recording calls that returned a ref, in call order. -/
+def returned (w : World) : List Op → List Update
+  | [] => []
+  | op :: ops =>
+    match (step w op).2, op.update? with
+    | .ref _ _, some u => u :: returned (step w op).1 ops
+    | _, _ => returned (step w op).1 ops
+
+/-- Keys of the map are pairwise different and none is uuid.Nil. -/
+structure Inv (w : World) : Prop where
+  distinct : DistinctRefs w.store.entries
+  nonNil : ∀ e ∈ w.store.entries, e.ref ≠ 0
+
+theorem inv_init : Inv World.init := ⟨List.Pairwise.nil, by simp [World.init]⟩
+
+theorem pickRef_spec (taken : Nat → Bool) (cands : List Nat) :
+    ∀ (u r k : Nat), pickRef taken cands u = some (r, k) → taken r = false ∧ r ≠ 0 := by
+  induction cands with
+  | nil => intro u r k h; simp [pickRef] at h
+  | cons c cs ih =>
+    intro u r k h
+    simp only [pickRef] at h
+    split at h
+    · exact ih _ _ _ h
+    · rename_i ht
+      cases h
+      exact ⟨by simpa using ht, by simp [mkUuid]⟩
+
+theorem record_entries (s : Store) (k : Kind) (u f : String) (recs : List Rec) (cands : List Nat) :
+    (∃ r used, s.record k u f recs cands =
+        ({ s with entries := s.entries ++ [⟨r, u, f, k, recs⟩],
+                  latestV := if k = .vuln then r else s.latestV,
+                  latestE := if k = .enrich then r else s.latestE }, some (r, used)) ∧
+        s.hasRef r = false ∧ r ≠ 0) ∨
+    s.record k u f recs cands = (s, none) := by
+  unfold Store.record
+  cases hp : pickRef s.hasRef cands 0 with
+  | none => right; rfl
+  | some p =>
+    obtain ⟨r, used⟩ := p
+    left
+    refine ⟨r, used, ?_, pickRef_spec _ _ _ _ _ hp⟩
+    cases k <;> simp
+
+theorem inv_append (s : Store) (e : Entry) (hd : DistinctRefs s.entries)
+    (h0 : ∀ x ∈ s.entries, x.ref ≠ 0) (hfresh : s.hasRef e.ref = false) (hr : e.ref ≠ 0) :
+    DistinctRefs (s.entries ++ [e]) ∧ ∀ x ∈ s.entries ++ [e], x.ref ≠ 0 := by
+  constructor
+  · refine List.pairwise_append.2 ⟨hd, List.pairwise_singleton _ _, ?_⟩
+    intro a ha b hb
+    simp only [List.mem_singleton] at hb
+    subst hb
+    have := List.any_eq_false.1 hfresh a ha
+    simpa using this
+  · intro x hx
+    rcases List.mem_append.1 hx with h | h
+    · exact h0 x h
+    · simp only [List.mem_singleton] at h; subst h; exact hr
+
+theorem inv_step (w : World) (op : Op) (h : Inv w) : Inv (step w op).1 := by
+  cases op with
+  | record k u f recs cands =>
+    simp only [step]
+    rcases record_entries w.store k u f recs cands with ⟨r, used, he, hf, hr⟩ | he
+    · rw [he]
+      obtain ⟨h1, h2⟩ := inv_append w.store ⟨r, u, f, k, recs⟩ h.distinct h.nonNil hf hr
+      exact ⟨h1, h2⟩
+    · rw [he]; exact h
+  | delta u f recs del cands =>
+    simp only [step, Store.recordDelta]
+    rcases record_entries w.store .vuln u f recs cands with ⟨r, used, he, hf, hr⟩ | he
+    · rw [he]
+      obtain ⟨h1, h2⟩ := inv_append w.store ⟨r, u, f, .vuln, recs⟩ h.distinct h.nonNil hf hr
+      exact ⟨h1, h2⟩
+    · rw [he]; exact h
+  | store order =>
+    simp only [step, Store.store]
+    cases ha : arrange w.store.entries order with
+    | none => exact h
+    | some es =>
+      have hperm := arrange_perm order _ _ h.distinct ha
+      have hdes : DistinctRefs es := distinct_perm hperm h.distinct
+      obtain ⟨pre, hpre⟩ := storeOut_left_suffix es
+      simp only
+      constructor
+      · show DistinctRefs (storeOut es).2.1
+        have : DistinctRefs (pre ++ (storeOut es).2.1) := hpre ▸ hdes
+        exact (List.pairwise_append.1 this).2.1
+      · intro e he
+        have he' : e ∈ (storeOut es).2.1 := he
+        have : e ∈ es := by rw [hpre]; exact List.mem_append_right _ he'
+        exact h.nonNil e (hperm.mem_iff.1 this)
+
+theorem inv_run (ops : List Op) : Inv (Sm.run step World.init ops) :=
+  Sm.invariant_run (Inv := Inv) (fun w op h => inv_step w op h) ops World.init inv_init
+
+/-- Recording calls only add their update to the map and write nothing. -/
+theorem run_recOnly (ops : List Op) : ∀ (w : World), RecOnly ops →
+    (Sm.run step w ops).store.entries.map Entry.update =
+      w.store.entries.map Entry.update ++ returned w ops ∧
+    (Sm.run step w ops).out = w.out := by
+  induction ops with
+  | nil => intro w _; simp [returned]
+  | cons op ops ih =>
+    intro w hrec
+    have hrec' : RecOnly ops := fun o ho => hrec o (by simp [ho])
+    have hop := hrec op (by simp)
+    obtain ⟨ih1, ih2⟩ := ih (step w op).1 hrec'
+    simp only [Sm.run_cons, returned]
+    rw [ih1, ih2]
+    cases op with
+    | record k u f recs cands =>
+      simp only [step, Op.update?]
+      rcases record_entries w.store k u f recs cands with ⟨r, used, he, _, _⟩ | he
+      · rw [he]; simp [Entry.update]
+      · rw [he]; simp
+    | delta u f recs del cands =>
+      simp only [step, Op.update?, Store.recordDelta]
+      rcases record_entries w.store .vuln u f recs cands with ⟨r, used, he, _, _⟩ | he
+      · rw [he]; simp [Entry.update]
+      · rw [he]; simp
+    | store order => simp [Op.update?] at hop
+
+/-- Store then Load after a history of recording calls: the loader yields, in
+    the order the map was visited, exactly the non-empty recorded updates. -/
+theorem store_load_general (ops : List Op) (hrec : RecOnly ops) (order : List Nat)
+    (hfit : ∀ u ∈ returned World.init ops, ∀ r ∈ u.recs, r.fits = true)
+    (s' : Store) (lines : List Line) (ok : Bool)
+    (hst : (Sm.run step World.init ops).store.store order = some (s', lines, ok)) :
+    ok = true ∧ s'.entries = [] ∧
+    ∃ L : List Update, L.Perm ((returned World.init ops).filter fun u => !u.recs.isEmpty) ∧
+      loadAll lines = (L.map (fun u => some u.loaded), .ok) := by
+  have hinv := inv_run ops
+  have hent : (Sm.run step World.init ops).store.entries.map Entry.update =
+      returned World.init ops := by
+    rw [(run_recOnly ops World.init hrec).1]
+    exact List.nil_append _
+  generalize Sm.run step World.init ops = w at hst hinv hent
+  unfold Store.store at hst
+  cases ha : arrange w.store.entries order with
+  | none => simp [ha] at hst
+  | some es =>
+    have hperm := arrange_perm order _ _ hinv.distinct ha
+    have hdes : DistinctRefs es := distinct_perm hperm hinv.distinct
+    have hfit' : ∀ e ∈ es, e.AllFit := by
+      intro e he r hr
+      have : e.update ∈ returned World.init ops := by
+        rw [← hent]; exact List.mem_map.2 ⟨e, hperm.mem_iff.1 he, rfl⟩
+      exact hfit _ this r hr
+    simp only [ha, storeOut_fits es hfit', Option.some.injEq, Prod.mk.injEq] at hst
+    obtain ⟨hs', hl, hok⟩ := hst
+    refine ⟨hok.symm, by rw [← hs'], (es.filter fun e => !e.recs.isEmpty).map Entry.update, ?_, ?_⟩
+    · have h1 : ((es.filter fun e => !e.recs.isEmpty).map Entry.update).Perm
+          ((w.store.entries.filter fun e => !e.recs.isEmpty).map Entry.update) :=
+        (hperm.filter _).map _
+      have h2 : (w.store.entries.filter fun e => !e.recs.isEmpty).map Entry.update =
+          (w.store.entries.map Entry.update).filter fun u => !u.recs.isEmpty := by
+        rw [List.filter_map]; rfl
+      rw [h2, hent] at h1
+      exact h1
+    · rw [← hl, ← render_filter es]
+      rw [loadAll_render _ (fun e he => by simpa using (List.mem_filter.1 he).2)
+        (List.Pairwise.filter _ hdes)
+        (fun e he => hinv.nonNil e (hperm.mem_iff.1 (List.mem_filter.1 he).1))]
+      simp [List.map_map, Function.comp_def, Entry.update_loaded]
+
+/-- Some map order always exists. -/
+theorem store_order_exists (ops : List Op) :
+    ∃ order s' lines ok, (Sm.run step World.init ops).store.store order = some (s', lines, ok) := by
+  have hinv := inv_run ops
+  refine ⟨(Sm.run step World.init ops).store.entries.map (·.ref), ?_⟩
+  simp only [Store.store, arrange_self _ hinv.distinct]
+  exact ⟨_, _, _, rfl⟩
 
 end ClairModel.JsonBlob
